@@ -1,10 +1,12 @@
 package sio
 
 import (
+	"reflect"
 	"time"
 
 	eio "github.com/karagenc/socket.io-go/engine.io"
 	eioparser "github.com/karagenc/socket.io-go/engine.io/parser"
+	"github.com/karagenc/socket.io-go/parser"
 )
 
 // verifEIOClient is a recording Engine.IO client socket handed out by the (cut) dial.
@@ -230,6 +232,44 @@ func verifH_C15_offline_ack() {
 	if len(got) == len(want) {
 		for i := range want {
 			verifAssert(verifFrameIs(got[i], want[i]), "offline emits are delivered once each, in the order they were emitted")
+		}
+	}
+	verifReach("end")
+}
+
+// C15_offline_onconnect: events emitted while disconnected are still buffered when the CONNECT answer arrives (the real
+// clientSocket.onConnect, first connection or after an outage), and a connect handler of the application emits a
+// further event at once. On the wire the buffered events go first, in the order they were emitted, each once; the
+// event emitted from the connect handler follows them.
+//
+//verif:unwind 16
+//verif:rand concrete
+func verifH_C15_offline_onconnect() {
+	m, cl := verifClientWorld(&verifPipeParser{}, "/")
+	c := cl["/"]
+	c.state = clientSocketConnStateDisconnected
+	e := verifChoose(1, 3)
+	var want [][]byte
+	for i := 0; i < e; i++ {
+		name := string([]byte{'e', byte('0' + i)})
+		volatile := verifAnyBool()
+		c.emit(name, 0, volatile, false)
+		if !volatile {
+			want = append(want, []byte(name))
+		}
+	}
+	c.OnConnect(func() { c.Emit("online") })
+	want = append(want, []byte("online"))
+	info := &sidInfo{SID: "sid1"}
+	c.onConnect(&parser.PacketHeader{Type: parser.PacketTypeConnect, Namespace: "/"}, func(types ...reflect.Type) ([]reflect.Value, error) {
+		return []reflect.Value{reflect.ValueOf(info)}, nil
+	})
+	verifWaitQuiescent()
+	got := m.eioPacketQueue.get()
+	verifAssert(len(got) == len(want), "exactly the non-volatile offline emits and the emit of the connect handler are sent")
+	if len(got) == len(want) {
+		for i := range want {
+			verifAssert(verifFrameIs(got[i], want[i]), "offline emits go out first, in the order they were emitted; what a connect handler emits follows them")
 		}
 	}
 	verifReach("end")
